@@ -245,7 +245,10 @@ pub fn run_case(bins: &Binaries, case: &Case, reference: &[(String, Vec<u8>)], i
     let lines: Vec<&str> = text.lines().collect();
     match exited {
         None => v.push(mk("X-no-progress", format!("anthem made no progress for 30 s ({} prover(s) connected, {} released); stderr: {}", standins.len(), released, String::from_utf8_lossy(&stderr)))),
-        Some(st) if !st.success() => v.push(mk("X-exit", format!("anthem exited with {st:?}; stderr: {}", String::from_utf8_lossy(&stderr).chars().take(300).collect::<String>()))),
+        // (a non-zero exit status after a verdict is not constrained by the statement; dying without a verdict is)
+        Some(st) if !st.success() && (st.code().is_none() || !lines.iter().any(|l| l.starts_with("> Success!") || l.starts_with("> Failure!"))) => {
+            v.push(mk("X-exit", format!("anthem ended with {st:?} without a verdict; stderr: {}", String::from_utf8_lossy(&stderr).chars().take(300).collect::<String>())))
+        }
         _ => {}
     }
     for st in standins.iter().filter(|s| s.died) {
